@@ -1663,6 +1663,9 @@ func cleanDataConditions(dcs *[]DataCondition) bool {
 			if ae.SubQuery != be.SubQuery {
 				return ae.SubQuery < be.SubQuery
 			}
+			if ae.ConverterName != be.ConverterName {
+				return ae.ConverterName < be.ConverterName
+			}
 			if ae.Flags != be.Flags {
 				return ae.Flags < be.Flags
 			}
@@ -1696,6 +1699,9 @@ outer:
 		for i := 0; i < len(a.Elements) && i < len(b.Elements); i++ {
 			ae, be := a.Elements[i], b.Elements[i]
 			if ae.SubQuery != be.SubQuery {
+				continue outer
+			}
+			if ae.ConverterName != be.ConverterName {
 				continue outer
 			}
 			if ae.Flags != be.Flags {
